@@ -140,8 +140,8 @@ pub fn spec(id: &str) -> Option<PropSpec> {
         },
         "C11" => PropSpec {
             id: "C11",
-            batches: vec![b("semhash", 30_000, 1_200_000, true)],
-            rule: "one case = one seeded run: one history (var/negate/and/or/condition/exists/compile_cnf, up to 51 (thorough: 96) operations, 1-6 variables) executed in lock-step on two BDD builders (two orders), a compressed and an uncompressed SDD builder (two vtrees) and a SemanticSddBuilder<64-bit prime> (third vtree); compile_cnf_topdown/negate/condition on a StandardDecisionNNFBuilder and a SemanticDecisionNNFBuilder<64-bit prime> (two decision orders); cached hashes are requested at random points of the history; table capacities tiny-to-shipped; cache-forgetting and early-growth faults. Distinct = distinct event-log hash. Non-trivial = at least 3 results AND a fault fired or a table grew/displaced.",
+            batches: vec![b("semhash", 30_000, 1_200_000, true), b("table", 20_000, 1_000_000, false)],
+            rule: "one case = one seeded run: one history (var/negate/and/or/condition/exists/compile_cnf, up to 51 (thorough: 96) operations, 1-6 variables) executed in lock-step on two BDD builders (two orders), a compressed and an uncompressed SDD builder (two vtrees) and a SemanticSddBuilder<64-bit prime> (third vtree); compile_cnf_topdown/negate/condition on a StandardDecisionNNFBuilder and a SemanticDecisionNNFBuilder<64-bit prime> (two decision orders); cached hashes are requested at random points of the history; table capacities tiny-to-shipped; cache-forgetting and early-growth faults; at end of run no two stored nodes of a hash-identified builder may denote the same or complementary function. table world (identity-by-hash mode only): get_or_insert_by_hash(.., true)/get_by_hash histories with simulator-chosen hashes against a map model. Distinct = distinct event-log hash. Non-trivial = at least 3 results AND a fault fired or a table grew/displaced.",
             states_measure: "distinct Boolean functions realised (each in 5-7 representations)",
             probe_prefixes: &["Sem", "DnnfCond", "TopDown", "Table"],
             assumptions: &[
